@@ -212,34 +212,38 @@ fn strip(b: &[u8]) -> Option<(Vec<u8>, Vec<Vec<u8>>)> {
 }
 
 /// decodes ESC [ 0 (;3c)? (;4c)? (;1|;22)? m  into (text colour, background colour, intense)
+/// Meaning of one SGR sequence over the attributes `Style` can request, or None if it is not a well-formed
+/// SGR sequence, uses parameters outside that vocabulary, or leaves an attribute to whatever was in force
+/// before (then it would not encode *exactly* the request).  Parameters are interpreted in order, as a
+/// terminal does (0 resets; 30-37/39 text colour; 40-47/49 background; 1 intense; 22 normal), so their order
+/// and a leading reset are the library's choice.  Normal intensity is reported as None whether it was
+/// spelled "22" or left at the reset default.
 fn decode_sgr(seq: &[u8]) -> Option<(Option<u8>, Option<u8>, Option<bool>)> {
     let s = std::str::from_utf8(seq).ok()?;
     let body = s.strip_prefix("\u{1b}[")?.strip_suffix('m')?;
-    let mut parts = body.split(';');
-    if parts.next()? != "0" {
-        return None;
-    }
-    let (mut text, mut bg, mut intense) = (None, None, None);
-    let mut stage = 0;
-    for p in parts {
-        let b = p.as_bytes();
-        if b.len() == 2 && b[0] == b'3' && (b'0'..=b'7').contains(&b[1]) && stage < 1 {
-            text = Some(b[1] - b'0');
-            stage = 1;
-        } else if b.len() == 2 && b[0] == b'4' && (b'0'..=b'7').contains(&b[1]) && stage < 2 {
-            bg = Some(b[1] - b'0');
-            stage = 2;
-        } else if p == "1" && stage < 3 {
-            intense = Some(true);
-            stage = 3;
-        } else if p == "22" && stage < 3 {
-            intense = Some(false);
-            stage = 3;
-        } else {
+    // None = inherited from before the sequence
+    let (mut text, mut bg, mut bold): (Option<Option<u8>>, Option<Option<u8>>, Option<bool>) = (None, None, None);
+    for p in body.split(';') {
+        if !p.bytes().all(|b| b.is_ascii_digit()) || p.len() > 3 {
             return None;
         }
+        let n: u32 = if p.is_empty() { 0 } else { p.parse().ok()? };
+        match n {
+            0 => {
+                text = Some(None);
+                bg = Some(None);
+                bold = Some(false);
+            }
+            30..=37 => text = Some(Some((n - 30) as u8)),
+            39 => text = Some(None),
+            40..=47 => bg = Some(Some((n - 40) as u8)),
+            49 => bg = Some(None),
+            1 => bold = Some(true),
+            22 => bold = Some(false),
+            _ => return None,
+        }
     }
-    Some((text, bg, intense))
+    Some((text?, bg?, if bold? { Some(true) } else { None }))
 }
 
 fn judge(c: &Cell, out: &[u8], err: &[u8]) -> Option<(String, String)> {
@@ -381,7 +385,7 @@ fn ansi_enum(rep: &mut Report) {
             Ok(Ok(bytes)) => match decode_sgr(&bytes) {
                 None => Some(("ansi:malformed-escape".into(), format!("{:?}", String::from_utf8_lossy(&bytes)))),
                 Some(d) => {
-                    let want = (s.text.map(color_num), s.background.map(color_num), s.intense);
+                    let want = (s.text.map(color_num), s.background.map(color_num), if s.intense == Some(true) { Some(true) } else { None });
                     if d != want {
                         Some(("ansi:wrong-attributes".into(), format!("sequence {:?} decodes to {:?}, requested {:?}", String::from_utf8_lossy(&bytes), d, want)))
                     } else {
